@@ -742,6 +742,15 @@ func (r *collection) addService(service any, lifetime Lifetime, opts ...AddOptio
 func (r *collection) registerDescriptors(descriptors []*Descriptor, operation string) error {
 	pending := make(map[TypeKey]struct{}, len(descriptors))
 	for _, descriptor := range descriptors {
+		// context.Context, Provider and Scope are provided by the framework in
+		// every scope; no output of a registration may claim them
+		if _, isReserved := reservedTypes[descriptor.Type]; isReserved {
+			return &ValidationError{
+				ServiceType: descriptor.Type,
+				Cause:       fmt.Errorf("service type %s is reserved and cannot be registered", formatType(descriptor.Type)),
+			}
+		}
+
 		if descriptor.Key == nil && descriptor.Group != "" {
 			continue // group members accumulate
 		}
